@@ -10,7 +10,12 @@ EXPLANATION = ("S-CAS guard formula over the finite set of id-equality valuation
 
 def run(rep, W, ctx):
     body = W.op("add_version")
+    S.s_sql_closed(rep, W)
     S.s_txn1(rep, W, body)
+    S.s_txn2(rep, W)                    # "atomic": the transaction is exclusive from begin to commit
     S.s_cas(rep, W)
     S.s_txn3(rep, W, body)
     S.s_wmc(rep, W, only=[WD.tm("add_version")])
+    S.c01_key(rep, W)                   # stored with exactly the submitted parent and payload; becomes the latest
+    S.c02_cnt(rep, W)                   # "nothing about the client changes" on reject / counter bookkeeping on accept
+    S.c18_ops(rep, W)                   # reject exit is write-free
